@@ -22,7 +22,8 @@ EXPLANATION = (
     "Poison::Poisoned (the marker that produces an *empty* error list) -- only the reviewed cascade sites; R6 the "
     "three LLVM verifier calls use AbortProcessAction (trusted-base statement); R7 ARGS-COVERED for the alpha parser's "
     "consume(): every token constant passed has an expectation string."
-    " ADDED LATER: R8 re-runs the rules that the reviewed reasons cite (C06.R2/R4, C03.R5, C01.R3); R9 in every resolver arm an early exit on a possibly empty error list comes after the traversal of the children; R10 the status of LLVMLinkModules2 is not discarded; R11 the functions that rewrite types (scoper, typer, resolver) descend into every component of every ValueType variant. R1 entries are an inventory with reviewed reasons, not proofs: entries refuted by reproducers are known findings, the rest are assumptions.")
+    " ADDED LATER: R8 re-runs the rules that the reviewed reasons cite (C06.R2/R4, C03.R5, C01.R3); R9 in every resolver arm an early exit on a possibly empty error list comes after the traversal of the children; R10 the status of LLVMLinkModules2 is not discarded; R11 the functions that rewrite types (scoper, typer, resolver) descend into every component of every ValueType variant. R1 entries are an inventory with reviewed reasons, not proofs: entries refuted by reproducers are known findings, the rest are assumptions."
+    " ROUNDS 5-6: R12 linear traversal -- a necessary condition of `terminates`: a stage function on a recursion cycle hands one child of its node to the recursion at one call site per activation (else 2^depth work); R13 no arm of the typer drops an owned Err(..) and builds an unpoisoned AST node; R9 (shared with C03) a builtin expands to the type the typer announced. Termination in general, stack use and LLVM-internal aborts remain undecided.")
 
 ENTRIES = [
     "alpha::lexer::lex", "alpha::parser::parse", "alpha::expander::expand", "alpha::expander::expand_one",
@@ -374,6 +375,10 @@ STAGE_FILES = ("src/alpha/scoper/", "src/alpha/typer.rs", "src/alpha/analyzer/",
                "src/alpha/generator.rs", "src/alpha/expander.rs")
 
 
+PART_TAKERS = {"pop", "pop_front", "pop_back", "split_first", "split_last", "split_off", "split_at", "remove", "swap_remove", "first", "last",
+               "drain", "take", "truncate"}
+
+
 def _tree_paths(root):
     st = [(root, ())]
     while st:
@@ -440,7 +445,10 @@ def r12_linear_traversal(run, F):
             nsites += 1
             o = origins.origins(b["hir"], recv, b.get("params", ()))
             flds = sorted(set(k[1] for k in o if k[0] == "field") | set(k[2] for k in o if k[0] == "patfield"))
-            pos = tuple(sorted(k[1] for k in o if k[0] == "tuplepos"))
+            # a receiver obtained by taking one element or one part out of the collection (pop, split_first, split_off ..)
+            # denotes another part of the child than the collection itself
+            part = tuple(sorted(set(str(k[1]).split("::")[-1] for k in o if k[0] == "call") & PART_TAKERS))
+            pos = tuple(sorted(k[1] for k in o if k[0] == "tuplepos")) + part
             for f in flds:
                 sites.setdefault((c, f, pos), []).append((n, path))
         for (c, f, pos), ss in sorted(sites.items(), key=lambda kv: str(kv[0])):
